@@ -227,3 +227,65 @@ func vCopyFile(src, dst string) bool {
 	}
 	return os.WriteFile(dst, b, 0600) == nil
 }
+
+// vLockCheck, native twin: the lock-order hazard the engine sees on one
+// thread (re-entering a read lock) only bites when a writer arrives in
+// between, so the replay stresses f against a stream of writers on the
+// same handle and fails the label if f stops making progress.
+func vLockCheck(label string, db *DB, f func()) {
+	stop := make(chan struct{})
+	done := make(chan struct{})
+	go func() {
+		for {
+			select {
+			case <-stop:
+				return
+			default:
+			}
+			db.Lock()
+			db.Unlock()
+		}
+	}()
+	go func() {
+		deadline := time.Now().Add(1500 * time.Millisecond)
+		for time.Now().Before(deadline) {
+			f()
+		}
+		close(done)
+	}()
+	select {
+	case <-done:
+	case <-time.After(8 * time.Second):
+		vFailures = append(vFailures, label)
+	}
+	close(stop)
+}
+
+// vPar, native twin: really concurrent goroutines, with a watchdog.
+func vPar(f, g func()) { vParN(f, g) }
+
+func vPar3(f, g, h func()) { vParN(f, g, h) }
+
+func vParN(fs ...func()) {
+	done := make(chan struct{}, len(fs))
+	for _, f := range fs {
+		f := f
+		go func() {
+			defer func() { done <- struct{}{} }()
+			f()
+		}()
+	}
+	for range fs {
+		select {
+		case <-done:
+		case <-time.After(20 * time.Second):
+			vFailures = append(vFailures, "deadlock")
+			return
+		}
+	}
+}
+
+// vRaceCheck: natively the race detector (go test -race) is the judge.
+func vRaceCheck(label string) {}
+
+func vSchedSwitches() int { return 0 }
